@@ -62,4 +62,36 @@ inductive Reach (g : Graph) : Nat → Prop where
 def Closed (g : Graph) (S : Nat → Prop) : Prop :=
   (∀ v, v ∈ g.intrinsic → S v) ∧ (∀ a b, (a, b) ∈ g.edges → S b → S a)
 
+/-! ### An iteration scheme that revisits only "dependent" packages (not the real code)
+
+  The propagation of the real code revisits EVERY package in every pass.  The scheme below revisits, from the second pass
+  on, only the packages in which the previous pass marked something and the packages importing such a package.  A generic
+  instance is analysed in the package that declares the generic function, but its callees may live in the instantiating
+  package, which the declaring package does not import: the scheme never comes back to it. -/
+
+structure PGraph where
+  g : Graph
+  pkg : Nat → Nat                  -- package of a function / instance
+  imports : Nat → Nat → Bool       -- `imports p q`: package p imports package q
+
+/-- one pass restricted to the callers whose package satisfies `allowed`; also collects the packages that changed -/
+def passStepF (P : PGraph) (allowed : Nat → Bool) (s : List Nat × List Edge × List Nat) (e : Edge) :
+    List Nat × List Edge × List Nat :=
+  if allowed (P.pkg e.1) && s.1.contains e.2 then (e.1 :: s.1, s.2.1, P.pkg e.1 :: s.2.2) else (s.1, e :: s.2.1, s.2.2)
+
+def dependsOnAny (P : PGraph) (changed : List Nat) (p : Nat) : Bool :=
+  changed.contains p || changed.any (fun q => P.imports p q)
+
+def propagateDep (P : PGraph) : Nat → Option (List Nat) → List Nat → List Edge → List Nat
+  | 0, _, B, _ => B
+  | fuel + 1, changed, B, pending =>
+    let allowed : Nat → Bool := match changed with
+      | none => fun _ => true
+      | some ch => dependsOnAny P ch
+    let r := pending.foldl (passStepF P allowed) (B, [], [])
+    if r.2.2.isEmpty then r.1 else propagateDep P fuel (some r.2.2) r.1 r.2.1.reverse
+
+/-- blocking set computed by the "revisit only dependents" scheme -/
+def blockingDep (P : PGraph) : List Nat := propagateDep P (P.g.edges.length + 1) none P.g.intrinsic P.g.edges
+
 end GV.Blocking
